@@ -6,7 +6,13 @@
    What still needs a premise / is not proved:
    - finiteness and "can be driven to Done" are proved for configurations without repeating steps (a repeating step
      runs until a stop; after the stop it is not re-entered: C05_no_new_start / C05_started_at_most_once, proved for
-     every configuration);
+     every configuration - so after a stop every step's command starts at most once more; a BOUND on the length of the
+     executions after a stop with repeating steps is not proved: the measure of ProofsTerm.v rests on the invariant of
+     Proofs.v, which is stated for configurations without repeating steps);
+   - a stop during a retry interval: the worker's unconditional reset (status := not started) overwrites the canceled
+     label the Signal pass gave the node; the command is not started again (C05_no_new_start) and the run ends canceled
+     with onCancel/onExit - C05_stop_during_retry_wait below -, but the node is persisted "not started" with retry
+     count 1 although it was attempted once.  C05 says nothing about that label (C08 does);
    - that a signalled process exits (or is killed by SIGKILL) is the environment's part: in the model WExecEnd is
      always enabled for an executing command; which signal is sent (signalOnStop or the given one) is data of the call,
      checked by the monitor on the real Kill events;
@@ -134,3 +140,13 @@ Example C05_timeout_handlers_repaired :
     hstarts f5d_post = [HFailure; HExit] /\ st (nd s3 0) = NCancel /\ overall (one_step 0 true) s3 = OError /\
     hatt (hst s3 HFailure) = 1 /\ hs (hst s3 HFailure) = NSuccess /\ hatt (hst s3 HExit) = 1.
 Proof. exact f5d_repaired. Qed.
+
+(* (4) A stop during a retry interval (the reset of the retrying worker undoes the canceled label, not the stop): the
+   command was started once and is not started again, the run ends canceled, onCancel then onExit run; the node ends
+   "not started" with retry count 1, one attempt. *)
+Example C05_stop_during_retry_wait :
+  exists s, run retry_one (init retry_one) stop_in_retry_wait = Some s /\ pc s = LDone /\ canceled s = true /\
+    st (nd s 0) = NNone /\ rc (nd s 0) = 1 /\ att (nd s 0) = 1 /\ ph (nd s 0) = PIdle /\
+    overall retry_one s = OCancel /\ hstarts stop_in_retry_wait = [HCancel; HExit] /\
+    length (filter (fun l => match l with WExecStart _ => true | _ => false end) stop_in_retry_wait) = 1.
+Proof. exact stop_in_retry_wait_ok. Qed.
